@@ -40,13 +40,20 @@ theorem const_noRttWindow : Gen.brutalNoRttWindow = 10240 := by decide
 
 /-! ### bounded above -/
 
-/-- Rate conformance of the pacer.  Take ANY in-range pacer state and ANY sequence of sends
-    and datagram-size changes in which every send is covered by the budget the pacer reports
-    at that moment (what `HasPacingBudget` + "at most one datagram" give), every bandwidth
-    value `getBandwidth()` returned is in (0, B] and every datagram size is ≤ M.  Then for every
-    way of cutting the sequence into `pre ++ mid ++ post` with the sends of `mid` inside
-    [t1, t2]: the bytes of `mid` are at most  max(B·4ms, 10·M) + B·(t2 − t1)/10⁹. -/
-theorem pacer_conformance (B M : Int) (hB0 : 0 ≤ B) (hB : B ≤ 1099511627776) (hM : M ≤ 4294967296)
+/-- Rate conformance of the pacer, with packets that bypass pacing.  Take ANY in-range pacer
+    state and ANY sequence of
+      * paced sends (`Ev.send`): covered by the budget the pacer reports at that moment — what
+        `HasPacingBudget` + "at most one datagram" give;
+      * UNPACED sends (`Ev.usend`): reported to OnPacketSent although the pacer did not release
+        them (ACK-only packets, PTO probes, path-MTU probes) — any size ≥ 0, at any time not
+        before the previous send, whatever the budget;
+      * datagram-size changes (each ≤ M),
+    with every bandwidth value `getBandwidth()` returned in (0, B].  Then for every way of cutting
+    the sequence into `pre ++ mid ++ post` with the PACED sends of `mid` inside [t1, t2], the
+    bytes released by pacing in `mid` are at most  max(B·4ms, 10·M) + B·(t2 − t1)/10⁹ —
+    an unpaced send only lowers the budget (floored at 0); it can never re-arm a burst. -/
+theorem pacer_conformance_with_ungated (B M : Int) (hB0 : 0 ≤ B) (hB : B ≤ 1099511627776)
+    (hM : M ≤ 4294967296)
     (p : Pacer) (hp : Ok p) (hm : p.maxDatagramSize ≤ M) (pre mid post : List Ev)
     (hg : AllGated B M p (pre ++ mid ++ post)) (t1 t2 : Int) (ht : t1 ≤ t2)
     (hwin : ∀ t size bw, Ev.send t size bw ∈ mid → t1 ≤ t ∧ t ≤ t2) :
@@ -56,6 +63,15 @@ theorem pacer_conformance (B M : Int) (hB0 : 0 ≤ B) (hB : B ≤ 1099511627776)
   obtain ⟨hmid, _⟩ := (allGated_append mid post _).mp hrest
   obtain ⟨hok, hmm⟩ := ok_run hB hM pre p hp hm hpre
   exact window_bound hB hM t1 t2 ht hB0 mid _ hok hmm hmid hwin
+
+/-- the design's `pacer_conformance` (every send paced) is the special case without `usend` -/
+theorem pacer_conformance (B M : Int) (hB0 : 0 ≤ B) (hB : B ≤ 1099511627776) (hM : M ≤ 4294967296)
+    (p : Pacer) (hp : Ok p) (hm : p.maxDatagramSize ≤ M) (pre mid post : List Ev)
+    (_hpaced : ∀ t size bw, Ev.usend t size bw ∉ pre ++ mid ++ post)
+    (hg : AllGated B M p (pre ++ mid ++ post)) (t1 t2 : Int) (ht : t1 ≤ t2)
+    (hwin : ∀ t size bw, Ev.send t size bw ∈ mid → t1 ≤ t ∧ t ≤ t2) :
+    total mid ≤ burst B M + B * (t2 - t1) / 1000000000 :=
+  pacer_conformance_with_ungated B M hB0 hB hM p hp hm pre mid post hg t1 t2 ht hwin
 
 /-- `HasPacingBudget(t)` and "at most one datagram" make a send admissible -/
 theorem gated_by_HasPacingBudget (B M : Int) (s : Sender) (t size bw : Int)
@@ -68,8 +84,8 @@ theorem gated_by_HasPacingBudget (B M : Int) (s : Sender) (t size bw : Int)
   exact gated_of_hasBudget ht hgap hbw hB hs0 (by omega) hpb
 
 /-- The property's "burst + rate/0.8 × interval" for a BrutalSender: over every history of a
-    sender created with rate `bps` (congestion events, sends, datagram-size changes in any
-    order) whose sends are gated and whose bandwidth values are at most ⌊5·bps/4⌋ — the bound
+    sender created with rate `bps` (congestion events, paced and unpaced sends, datagram-size
+    changes in any order) whose paced sends are gated and whose bandwidth values are at most ⌊5·bps/4⌋ — the bound
     `bandwidth_bounds` proves for ⌊bps/ackRate⌋ in every reachable state — the bytes released
     in any window [t1, t2] are at most max(⌊5·bps/4⌋·4ms, 10·M) + ⌊5·bps/4⌋·(t2 − t1)/10⁹. -/
 theorem brutal_conformance (bps : Nat) (nc : Bool) (M : Int)
@@ -95,12 +111,17 @@ theorem brutal_conformance (bps : Nat) (nc : Bool) (M : Int)
         rcases h with h | h
         · cases h; exact List.mem_cons_self ..
         · exact List.mem_cons_of_mem _ (ih t size bw h)
+      | usend t' s' b' =>
+        simp only [pacerEvs, List.mem_cons] at h
+        rcases h with h | h
+        · cases h
+        · exact List.mem_cons_of_mem _ (ih t size bw h)
       | setMds m =>
         simp only [pacerEvs, List.mem_cons] at h
         rcases h with h | h
         · cases h
         · exact List.mem_cons_of_mem _ (ih t size bw h)
-  exact pacer_conformance _ M (Int.natCast_nonneg _) (by omega) hM Pacer.new ok_new
+  exact pacer_conformance_with_ungated _ M (Int.natCast_nonneg _) (by omega) hM Pacer.new ok_new
     (by have : Pacer.new.maxDatagramSize = 1280 := by decide
         omega)
     _ _ _ hg t1 t2 ht (fun t size bw h => hwin t size bw (hmem mid t size bw h))
@@ -111,7 +132,8 @@ theorem bandwidth_bounds (bps : Nat) (nc : Bool) (es : List SEv) :
     bandwidthQ bps (runS (Brutal.new bps nc) es).ackRate ≤ bps * 5 / 4 :=
   bandwidthQ_bounds bps _ (runS_inRange es _ (by simp [Brutal.new, AckRate.InRange, AckRate.num, AckRate.den]))
 
-/-- every gated history keeps the pacer in range and the two copies of the datagram size equal -/
+/-- every admissible history — unpaced sends of any size included — keeps the pacer in range
+    (so `wakeup_sufficient` / `can_always_eventually_send` apply after them) and the two copies of the datagram size equal -/
 theorem reachable_ok (bps : Nat) (nc : Bool) (B M : Int) (hB : B ≤ 1099511627776)
     (hM : M ≤ 4294967296) (hM0 : 1280 ≤ M) (es : List SEv)
     (hg : AllGated B M Pacer.new (pacerEvs es)) :
@@ -294,11 +316,11 @@ example : ¬ AllGated 1250000 1500 Pacer.new
       ++ [Ev.send 3600000500000 1500 1000000]) := by
   decide
 
-/-- `pacer_conformance` applied to the 40 GB/s sequence: the four datagrams sent at the single
-    instant t2 = t1 are within the burst allowance alone -/
+/-- `pacer_conformance_with_ungated` applied to the 40 GB/s sequence: the four datagrams sent at
+    the single instant t2 = t1 are within the burst allowance alone -/
 example : total (List.replicate 4 (Ev.send 3600000120000 1500 40000000000))
     ≤ burst 50000000000 1500 + 50000000000 * (3600000120000 - 3600000120000) / 1000000000 :=
-  pacer_conformance 50000000000 1500 (by decide) (by decide) (by decide) Pacer.new ok_new (by decide)
+  pacer_conformance_with_ungated 50000000000 1500 (by decide) (by decide) (by decide) Pacer.new ok_new (by decide)
     ([Ev.setMds 1500] ++ List.replicate 10 (Ev.send 3600000000000 1280 50000000000))
     (List.replicate 4 (Ev.send 3600000120000 1500 40000000000)) [] (by decide) _ _ (by decide)
     (by intro t size bw h
@@ -321,6 +343,20 @@ example :
     ⟨by decide, by decide, by decide, by decide, by decide, by decide⟩ (by decide)
     ⟨by decide, by decide⟩ ⟨by decide, by decide⟩ (by decide)
     ⟨by decide, by decide, fun _ => by decide⟩
+
+/-- unpaced sends: at 1 MB/s the burst (12800) is used up, then a 1400-byte path-MTU probe and a
+    40-byte ACK-only packet are reported while the budget is 0 and 100: the sequence is admissible,
+    the budget is floored at 0, and the pacer announces a wake-up instead of a new burst
+    (the seeded "pacing debt" variant would hold −1400 here and Budget would read it as an overflow) -/
+example : AllGated 1250000 1500 Pacer.new
+    (List.replicate 10 (Ev.send 3600000000000 1280 1000000)
+      ++ [Ev.usend 3600000000000 1400 1000000, Ev.usend 3600000100000 40 1000000]) := by
+  decide
+example : run Pacer.new [Ev.send 3600000000000 12800 1000000, Ev.usend 3600000000000 1400 1000000]
+    = ⟨0, 1280, 3600000000000⟩ := by decide
+example : budget ⟨0, 1280, 3600000000000⟩ 1000000 3600000000000 = 0 := by decide
+/-- the floor matters: with a negative remainder Budget's overflow guard hands out a full burst -/
+example : budget ⟨-1400, 1280, 3600000000000⟩ 1000000 3600000000000 = 12800 := by decide
 
 /-- a history with 60 samples in the window, 45 acked: 45/60 < 4/5 → clamp; 50/60 → 5/6 -/
 example : (runS (Brutal.new 1000000 false) [.ack 3600000000000 45 15]).ackRate = .floor := by decide
